@@ -16,11 +16,14 @@ THEOREMS = {
     "Proofs.Props.C12": ["MsPack.Cab.C12_payload_altered", "MsPack.Cab.C12_sizes_altered",
                          "MsPack.Cab.C12_stored_altered", "MsPack.Cab.C12_cksum_single_byte"],
     "Proofs.Props.C12Extract": ["MsPack.Cab.C12_stored_extract_refused", "MsPack.Cab.C12_extract_payload_byte", "MsPack.Cab.C12_extract_usize_byte"],
+    "Proofs.Props.C12Decoders": ["MsPack.Cab.C12_cab_ok_keeps_nr", "MsPack.Cab.C12_cab_feeder_error_refused", "MsPack.Cab.C12_not_nr_iff",
+                                 "MsPack.Cab.C12_cab_checksum_refused", "MsPack.Cab.C12_cab_ok_cache_nr"],
     "Proofs.Props.Tables": ["MsPack.TableObligations.crc32_table_is_crc32"],
 }
 ASSUMPTIONS = [
     "Lean kernel; axioms listed in coverage.trusted_base",
     "model of cabd_checksum/cabd_sys_read_block validated by differential execution, not derived from the C",
+    "lift through cabd_extract for EVERY compression type (C12Decoders): if the feeder handed back by an extract() call shows a block error (a wrong checksum, a truncated block, a missing continuation cabinet - anything but the harmless 'read past the folder's last block' record), the call's status is not OK, in any mode; a recorded CHECKSUM/READ/OPEN never goes with OK (C12_cab_checksum_refused). The literal 'any recorded feeder error => not OK' is false: decoders read ahead past the last block on every small folder, which records DATAFORMAT and is rightly ignored (kernel-checked example). Not proved: which members of an MSZIP/LZX/Quantum folder depend on a given damaged block (the decoders' read-ahead can make an earlier member fail too)",
     "OAB: a CRC-32 cannot exclude collisions of multi-byte output changes (probability 2^-32); claimed only: OK implies stored CRC matches, single-byte output differences and CRC-field alterations are always caught",
 ]
 RULE = ("prim.cksum: random byte strings (length 0..48, all lengths mod 4) x random seeds; cab.corrupt: for small cabinets "
